@@ -48,6 +48,22 @@ func txEdits() []txEdit {
 			l.Inputs[0].PreviousTxScript = bscript.NewFromBytes(append([]byte(nil), s...))
 			r.Ins[0].PrevScript = s
 		}},
+		{"in0.prevscript-bytes-in-place", func(r *txref.Tx) bool { return len(r.Ins[0].PrevScript) > 0 }, func(l *bt.Tx, r *txref.Tx) {
+			// the same Script object, its bytes rewritten in place
+			(*l.Inputs[0].PreviousTxScript)[0] ^= 0x01
+			r.Ins[0].PrevScript = append([]byte(nil), r.Ins[0].PrevScript...)
+			r.Ins[0].PrevScript[0] ^= 0x01
+		}},
+		{"inL.prevscript-grown-in-place", nil, func(l *bt.Tx, r *txref.Tx) {
+			k := last(len(r.Ins))
+			_ = l.Inputs[k].PreviousTxScript.AppendOpcodes(bscript.OpNOP)
+			r.Ins[k].PrevScript = append(append([]byte(nil), r.Ins[k].PrevScript...), 0x61)
+		}},
+		{"out0.script-bytes-in-place", func(r *txref.Tx) bool { return len(r.Outs) > 0 && len(r.Outs[0].Script) > 0 }, func(l *bt.Tx, r *txref.Tx) {
+			(*l.Outputs[0].LockingScript)[0] ^= 0x01
+			r.Outs[0].Script = append([]byte(nil), r.Outs[0].Script...)
+			r.Outs[0].Script[0] ^= 0x01
+		}},
 		{"in0.replace-pointer", nil, func(l *bt.Tx, r *txref.Tx) {
 			o := l.Inputs[0]
 			n := &bt.Input{PreviousTxOutIndex: o.PreviousTxOutIndex + 1, SequenceNumber: o.SequenceNumber, PreviousTxSatoshis: o.PreviousTxSatoshis, PreviousTxScript: o.PreviousTxScript, UnlockingScript: o.UnlockingScript}
